@@ -51,6 +51,7 @@ def run(R, tier, rng):
         mn = min(len(r) for r in Rw)
         for j in range(-mn, mn): add(base + "3 %d" % j, lambda: np.asarray(mk()[:, j]).tolist(), nt, "column")
         add(base + "4", lambda: [mk().sum(axis=-1).tolist(), mk().max(axis=-1).tolist(), mk().argmax(axis=-1).tolist()], nt, "row-reductions")
+        add(base + "11", lambda: [[int(b) for b in mk().any(axis=-1).tolist()], [int(b) for b in mk().all(axis=-1).tolist()], [float(v) for v in np.asarray(mk().mean(axis=-1), dtype=float).tolist()]], nt, "row-any-all-mean")
         add(base + "5", lambda: [rla(mk().ravel()), rla(mk().col_counts()), rla(mk().sum(axis=0))], nt, "ravel/colcounts/colsum")
         mx = max(len(r) for r in Rw)
         for _ in range(12):
@@ -68,6 +69,7 @@ def run(R, tier, rng):
         mm = lambda: RunLength2dArray.from_array(np.array(M)); bm = "rl2 [1 %s] " % show(M)
         add(bm + "0", lambda: obs(mm()), nt, "matrix-encode")
         add(bm + "1 " + show(enc_rsel(slice(None, None, -1))), lambda: obs(mm()[::-1]), nt, "matrix-rows")
+        add(bm + "11", lambda: [[int(b) for b in np.asarray(mm().any(axis=-1)).tolist()], [int(b) for b in np.asarray(mm().all(axis=-1)).tolist()], None], nt, "matrix-row-any-all")
         add(bm + "4", lambda: [mm().sum(axis=-1).tolist(), None, None], nt, "matrix-rowsum")
     # from_intervals: representation (boundaries, values) and decoded rows against Model/RLE2d.from_intervals and the indicator rows
     for trial in range(600 if tier == "thorough" else 150):
@@ -87,5 +89,7 @@ def run(R, tier, rng):
         else:
             m = parse(o)
             if kind == "matrix-rowsum" and impl is not None and m is not None: m = [m[0], None, None]
+            if kind == "row-any-all-mean" and m is not None: m = [m[0], m[1], [float(np.float64(a_) / np.float64(b_)) for a_, b_ in m[2]]]
+            if kind == "matrix-row-any-all" and m is not None: m = [m[0], m[1], None]
             if kind == "from-intervals" and m is not None: m, sp = m[0], [m[0][0], m[0][1], m[1]]
         R.record(line, impl, m, m if sp is None else sp, nt, kind)
